@@ -433,6 +433,15 @@ func cmdCheck(args []string) int {
 		}
 	}
 	sort.Strings(inconcl)
+	{
+		var d []string
+		for i, m := range inconcl {
+			if i == 0 || m != inconcl[i-1] {
+				d = append(d, m)
+			}
+		}
+		inconcl = d
+	}
 	switch {
 	case violations > 0:
 		exit = 1
